@@ -159,7 +159,8 @@ def run_model_coq(terms):
     """evaluate boolean terms inside Coq (vm_compute), sharded over coqc processes"""
     d = os.path.join(core.SCRATCH, "c01cases")
     os.makedirs(d, exist_ok=True)
-    nsh = min(core.NPROC, max(1, len(terms) // 200))
+    # at most ~1000 terms per file: a list literal of a few MB overflows coqc's stack
+    nsh = max(1, min(core.NPROC, len(terms) // 200), -(-len(terms) // 1000))
     shards = [terms[i::nsh] for i in range(nsh)]
     paths = []
     for i, sh in enumerate(shards):
@@ -180,7 +181,7 @@ def run_model_coq(terms):
         body = out[out.index("="):]
         return [t == "true" for t in re.findall(r"\b(true|false)\b", body)]
 
-    with ThreadPoolExecutor(max_workers=nsh) as ex:
+    with ThreadPoolExecutor(max_workers=min(nsh, core.NPROC)) as ex:
         outs = list(ex.map(one, paths))
     for p in paths:
         for ext in ("", "o", "ok", "os"):
